@@ -226,6 +226,9 @@ func (w *World) addSpecFile(path, pkgPath string) error {
 		if old, dup := w.contracts[k]; dup {
 			return fmt.Errorf("%s:%d: duplicate contract for %s (also %s:%d)", fc.File, fc.Line, k, old.File, old.Line)
 		}
+		if fc.yieldInline && len(fc.Props) == 0 {
+			fc.Inline = true
+		}
 		w.contracts[k] = fc
 	}
 	for _, d := range sf.Defines {
